@@ -44,6 +44,8 @@ def coq_stmt(s):
     if op == "index": return "SIndex %d %d %d" % (s[1], s[2], s[3])
     if op == "guarded": return "SGuarded %d %s" % (s[1], coq_prog(s[2]))
     if op == "ignore": return "SIgnore %s" % ("true" if s[1] else "false")
+    if op == "probe": return "SProbe"
+    if op == "itelazy": return "SIteLazy %d %d %s %d %s %d" % (s[1], s[2], coq_prog(s[3]), s[4], coq_prog(s[5]), s[6])
     raise ValueError(op)
 
 
@@ -319,6 +321,21 @@ class Gen:
                 body = self.block(cfg, r.choice([1, 2, 3, 4]), depth + 1)
                 # registers defined inside the body stay defined afterwards (same Python dict)
                 out.append(["guarded", g, body])
+            elif choice == "itelazy" and depth < pf.get("max_guard_depth", 2):
+                cnd = self.pick(["bool"])
+                if cnd is None:
+                    a = self.pick(["lc"]); b = self.pick(["lc"])
+                    if a is None or b is None: continue
+                    out.append(["bin", self.new("bool"), r.choice(["lt", "eq", "le", "ne"]), a, b])
+                    cnd = self.nreg - 1
+                tb = self.block(cfg, r.choice([1, 2, 3]), depth + 1)
+                tr_ = self.pick(["lc", "bool", "fxp"])
+                fb = self.block(cfg, r.choice([1, 2, 3]), depth + 1)
+                fr_ = self.pick(["lc", "bool", "fxp"])
+                if tr_ is None or fr_ is None: continue
+                out.append(["itelazy", self.new("any"), cnd, tb, tr_, fb, fr_])
+            elif choice == "probe":
+                out.append(["probe"])
             elif choice == "ignore" and depth == 0:
                 out.append(["ignore", r.choice([True, False])])
             elif choice == "list":
